@@ -28,9 +28,16 @@ Section Writer.
                                                    (* chr(u).encode("latin-1") *)
     | _ => prim_write e p (VInt u)
     end.
+  (* BitBuffer.flush: the unit, accumulated as an unsigned number, is converted to two's complement for a
+     signed storage type when its top bit is set, then written through the storage type *)
+  Definition flush_value (p : prim) (u : Z) : Z :=
+    match p with
+    | PInt n true _ => let bits := 8 * Z.of_nat n in if Z.shiftr u (bits - 1) =? 1 then u - 2 ^ bits else u
+    | _ => u
+    end.
   Definition wb_flush (wb : wbuf) : result (list Z) :=
     match wb_type wb with
-    | Some (p, _) => unit_write p (wb_buf wb)
+    | Some (p, _) => unit_write p (flush_value p (wb_buf wb))
     | None => Ok []
     end.
   (* BitBuffer.write: returns bytes flushed by this call and the new buffer *)
